@@ -23,7 +23,7 @@ def main(argv):
         seed = run_seed(verif_seed, prop, tier, i)
         ds = []
         for _ in range(repeat):
-            case = make_case(mod, seed, tier)
+            case = make_case(mod, seed, tier, i, verif_seed)
             tape = Tape(seed)
             res = run_one(mod, case, tape, getattr(mod, "RUN_TIMEOUT_S", 30))
             ds.append(tape.digest()[:24] + ":" + str(len(res["violations"])))
